@@ -154,6 +154,8 @@ class Decoder:
         if sym == 'int':
             k = self.ints[self.base + idx]
             return k, ('c', k)
+        if sym == 'one':
+            return 1, ('c', 1)
         if sym == 'T':
             return True, ('c', True)          # Python constants of other types that compare == with ints
         if sym == 'fl':
